@@ -18,16 +18,25 @@ structure with the elements named by its own exclusion list removed.  Over every
     rejected by verify()
   - large plays (up to 64 KiB serialised): hash_play / the digest shown to GPG is SHA-256 of the WHOLE
     serialisation (computed in one piece from the model's text), and changing one character at any serialised
-    offset (block boundaries in particular) changes it to SHA-256 of the edited serialisation.
+    offset (block boundaries in particular) changes it to SHA-256 of the edited serialisation
+  - histories: 2-6 verify / verify_play / execute_verification calls in ONE process (genuine, tampered re-using an
+    earlier signature, the same again, other signatures, revoked before/after not revoked, logging levels varied):
+    every call's verdict and the digests GPG is shown equal those of the same call made as the first call of a
+    freshly forked process at the default logging level; GPG is shown the digest of THIS play on every call that
+    reaches the signature check; module-level containers of the verifier package do not grow.
 """
 import base64
 import binascii
 import copy
 import hashlib
+import collections
 import io
 import json
+import logging
 import os
+import pickle
 import re
+import sys
 
 from harness.common import VERIF, enc, dec, run_driver
 
@@ -941,7 +950,7 @@ def run_large(chk, quick):
         # (b) sensitivity at offsets spread over the whole serialisation
         spans = plain_spans(p, tbytes)
         done = set()
-        budget = max(14, min(60, 500000 // L)) if quick else 10 ** 9     # an edit of a 64 KiB play costs ~50 ms
+        budget = max(12, min(50, 350000 // L)) if quick else 10 ** 9     # an edit of a 64 KiB play costs ~50 ms
         for k in edit_offsets(rng, L, quick):
             if len(done) >= budget:
                 break
@@ -982,9 +991,10 @@ def run_large(chk, quick):
         enc_tab = lambda tab: ",".join(enc(x) + ":" + enc(y) for x, y in tab) if tab else "-"
         sigtab = [(p2["vars"][SIG], text), (rdoc["vars"][SIG], rraw.decode("utf-8"))]
         hashtab = [(hashlib.sha256(b"other").hexdigest(), "other")] + ([(hx(dm), text)] if revoked else [])
-        vlines.append("verify\t-\t%s\t%s\t%s\t%s" % (enc_tab(sigtab), enc_tab(hashtab), wire(rplain), wire(p2)))
-        vcases.append({"bytes": L, "revoked": revoked})
-        vimpl.append(a)
+        if not quick or L <= 17000 or L == 65536:      # the model side of the biggest plays costs seconds of driver time
+            vlines.append("verify\t-\t%s\t%s\t%s\t%s" % (enc_tab(sigtab), enc_tab(hashtab), wire(rplain), wire(p2)))
+            vcases.append({"bytes": L, "revoked": revoked})
+            vimpl.append(a)
         chk.count("large:verify:%s/%s" % ("revoked" if revoked else "clean", a))
         if a == "ok" and revoked:
             chk.failure("verify() accepted a %d-byte play whose SHA-256 is on the revocation list" % L,
@@ -994,6 +1004,374 @@ def run_large(chk, quick):
     if vlines:
         chk.compare("large plays: verify (signature and revocation made from the one-piece digest)",
                     vcases, vimpl, run_driver("C18", vlines))
+
+
+# ------------------------------------------------------------------ histories of calls in one process
+
+VLOG = "insights.client.apps.ansible.playbook_verifier"
+LEVELS = ["default", "default", "root-debug", "verifier-debug", "all-debug"]
+logging.getLogger().addHandler(logging.NullHandler())      # DEBUG records of the verifier go nowhere
+
+
+def set_levels(level):
+    root, v = logging.getLogger(), logging.getLogger(VLOG)
+    old = (root.level, v.level)
+    if level in ("root-debug", "all-debug"):
+        root.setLevel(logging.DEBUG)
+    if level in ("verifier-debug", "all-debug"):
+        v.setLevel(logging.DEBUG)
+    return old
+
+
+def restore_levels(old):
+    logging.getLogger().setLevel(old[0])
+    logging.getLogger(VLOG).setLevel(old[1])
+
+
+def do_call(call, level=None):
+    """one call of a public entry point -> {'verdict': ..., 'seen': [hex digests GPG was shown, in order]}"""
+    obj = to_ruamel(call["play"])
+    doc = call["doc"].encode("utf-8") if call.get("doc") is not None else None
+    old = set_levels(level or "default")
+    del FakeGPG.seen[:]
+    try:
+        with Patched(doc):
+            if call["entry"] == "verify":
+                r = pv.verify(obj)
+                verdict = "ok" if r is obj else "returned-other-object"
+            elif call["entry"] == "verify_play":
+                res, d = pv.verify_play(obj)
+                verdict = ("valid" if res.valid else "invalid") + ":" + binascii.hexlify(d).decode()
+            else:
+                cleaned = pv.exclude_dynamic_elements(obj)
+                res, d = pv.execute_verification(cleaned, obj["vars"][SIG])
+                verdict = ("valid" if res.valid else "invalid") + ":" + binascii.hexlify(d).decode()
+    except pv.PlaybookVerificationError:
+        verdict = "verr"
+    except Exception as e:
+        verdict = "crash"
+    finally:
+        restore_levels(old)
+    return {"verdict": verdict, "seen": [binascii.hexlify(x).decode() for x in FakeGPG.seen]}
+
+
+class RefServer(object):
+    """
+    The reference for "the same call as the FIRST call of a fresh process": a child forked before this process
+    made any call into the verifier; it forks a grandchild per call, so every reference call starts from the
+    state right after import.  Reference calls run at the default logging level.
+    """
+
+    def __init__(self):
+        r1, w1 = os.pipe()
+        r2, w2 = os.pipe()
+        self.pid = os.fork()
+        if self.pid == 0:
+            code = 0
+            try:
+                os.close(w1)
+                os.close(r2)
+                self._serve(os.fdopen(r1, "rb"), os.fdopen(w2, "wb"))
+            except BaseException:
+                code = 1
+            finally:
+                os._exit(code)
+        os.close(r1)
+        os.close(w2)
+        self.w, self.r = os.fdopen(w1, "wb"), os.fdopen(r2, "rb")
+
+    @staticmethod
+    def _serve(rd, wr):
+        while True:
+            try:
+                calls = pickle.load(rd)
+            except EOFError:
+                return
+            out = []
+            for call in calls:
+                a, b = os.pipe()
+                pid = os.fork()
+                if pid == 0:
+                    try:
+                        os.close(a)
+                        with os.fdopen(b, "wb") as f:
+                            pickle.dump(do_call(call), f)
+                    finally:
+                        os._exit(0)
+                os.close(b)
+                with os.fdopen(a, "rb") as f:
+                    try:
+                        out.append(pickle.load(f))
+                    except EOFError:
+                        out.append({"verdict": "reference-child-died", "seen": []})
+                os.waitpid(pid, 0)
+            pickle.dump(out, wr)
+            wr.flush()
+
+    def run(self, calls):
+        pickle.dump(calls, self.w)
+        self.w.flush()
+        return pickle.load(self.r)
+
+    def close(self):
+        try:
+            self.w.close()
+            self.r.close()
+            os.waitpid(self.pid, 0)
+        except Exception:
+            pass
+
+
+def module_containers():
+    """sizes of the module-level containers of the verifier package (not the vendored libraries): module globals,
+    class attributes, mutable default arguments, lru_cache sizes"""
+    out = {}
+    kinds = (dict, list, set, frozenset, bytearray, collections.deque)
+    for name, mod in list(sys.modules.items()):
+        if mod is None or not name.startswith(VLOG) or ".contrib" in name:
+            continue
+        for k, v in list(vars(mod).items()):
+            if k.startswith("__"):
+                continue
+            if isinstance(v, kinds):
+                out["%s.%s" % (name, k)] = len(v)
+            elif isinstance(v, type) and getattr(v, "__module__", None) == name:
+                for ck, cv in list(vars(v).items()):
+                    if isinstance(cv, kinds) and not ck.startswith("__"):
+                        out["%s.%s.%s" % (name, k, ck)] = len(cv)
+            elif callable(v) and getattr(v, "__module__", None) == name:
+                if hasattr(v, "cache_info"):
+                    out["%s.%s<lru_cache>" % (name, k)] = v.cache_info().currsize
+                f = getattr(v, "__wrapped__", v)
+                for i, dv in enumerate(getattr(f, "__defaults__", None) or ()):
+                    if isinstance(dv, kinds):
+                        out["%s.%s<default %d>" % (name, k, i)] = len(dv)
+                for dk, dv in (getattr(f, "__kwdefaults__", None) or {}).items():
+                    if isinstance(dv, kinds):
+                        out["%s.%s<default %s>" % (name, k, dk)] = len(dv)
+                for dk, dv in list(getattr(f, "__dict__", {}).items()):
+                    if isinstance(dv, kinds):
+                        out["%s.%s.%s" % (name, k, dk)] = len(dv)
+    return out
+
+
+def gen_signed_play(rng):
+    """a play that verifies: good exclusion list covering the signature, signed with the stand-in for its own digest"""
+    for _ in range(30):
+        p = gen_play(rng)
+        if not isinstance(p.get("vars"), dict):
+            p["vars"] = {}
+        p["vars"][EXCL] = rng.choice(GOOD_EXCL[:7])
+        p["vars"][SIG] = "UExBQ0VIT0xERVI="
+        for c in spec_requests(p)[1]:
+            if len(c) == 1 and c[0] == "hosts":
+                p.setdefault("hosts", "all")
+            if len(c) == 2 and c[0] == "hosts":
+                if not isinstance(p.get("hosts"), dict):
+                    p["hosts"] = {}
+                p["hosts"].setdefault(c[1], "w")
+            if len(c) == 2 and c[0] == "vars":
+                p["vars"].setdefault(c[1], "d")
+        want = spec_core(p)
+        if want[0] != "core":
+            continue
+        p2 = copy.deepcopy(p)
+        p2["vars"][SIG] = "x"
+        if spec_core(p2) != want:
+            continue            # the signature itself is under the digest: nothing can sign this play
+        return p
+    return None
+
+
+def gen_history(rng, sign):
+    """2-6 calls over a small universe: genuine A and B, tampered A re-using A's signature, A again, A changed only
+    inside excluded elements, B's signature on A, an unsigned play; one revocation document for the whole history
+    (as in one process) that may list A's or B's digest.  `sign(play) -> (signed play, digest, text)`."""
+    A = sign(gen_signed_play(rng))
+    B = sign(gen_signed_play(rng))
+    if A is None or B is None:
+        return None
+    (pa, da, ta), (pb, db, tb) = A, B
+    uni = {"A": pa, "B": pb}
+    for _ in range(10):
+        k, q = one_edit(rng, pa)
+        if isinstance(q, dict) and spec_core(q) != spec_core(pa) and isinstance(q.get("vars"), dict) and q["vars"].get(SIG) == pa["vars"][SIG]:
+            uni["T"] = q            # tampered outside the excluded elements, A's signature kept
+            break
+    for _ in range(10):
+        k, q = one_edit(rng, pa)
+        if isinstance(q, dict) and touches_excluded_only(pa, q) and isinstance(q.get("vars"), dict) and q["vars"].get(SIG) == pa["vars"][SIG]:
+            uni["X"] = q            # only excluded elements changed
+            break
+    q = copy.deepcopy(pa)
+    q["vars"][SIG] = pb["vars"][SIG]
+    uni["AsigB"] = q
+    q = copy.deepcopy(pb)
+    q["vars"][SIG] = pa["vars"][SIG]
+    uni["BsigA"] = q
+    q = copy.deepcopy(pa)
+    del q["vars"][SIG]
+    uni["U"] = q
+    mode = rng.choice(["clean", "clean", "revA", "revA", "revB", "none"])
+    entries = [{"name": "x", "hash": hashlib.sha256(b"other-%d" % rng.randrange(10 ** 6)).hexdigest()} for _ in range(rng.choice([0, 1, 2]))]
+    if mode == "revA":
+        entries.insert(rng.randrange(len(entries) + 1), {"name": "A", "hash": binascii.hexlify(da).decode()})
+    if mode == "revB":
+        entries.insert(rng.randrange(len(entries) + 1), {"name": "B", "hash": binascii.hexlify(db).decode()})
+    rdoc = {"name": "revocation list", "timestamp": 1632510092,
+            "vars": {EXCL: "/vars/insights_signature", SIG: "UExBQ0VIT0xERVI="}}
+    if mode != "none":
+        rdoc["revoked_playbooks"] = entries
+    names = list(uni)
+    tpl = rng.choice([["A", "T"], ["A", "T", "A"], ["A", "A"], ["T", "A", "T"], ["B", "A", "T"], ["A", "B", "T", "X"],
+                      ["A", "BsigA", "B"], ["B", "A", "B"], ["A", "X", "T", "A"], ["A", "U", "A"], None, None])
+    if tpl is None:
+        tpl = [rng.choice(names) for _ in range(rng.randint(2, 6))]
+    tpl = [n for n in tpl if n in uni]
+    if len(tpl) < 2:
+        tpl = ["A", "A"]
+    calls = []
+    for n in tpl:
+        calls.append({"what": n, "entry": rng.choice(["verify", "verify", "verify", "verify_play", "verify_play", "execute_verification"]),
+                      "play": uni[n], "level": rng.choice(LEVELS)})
+    return {"calls": calls, "rdoc": rdoc, "mode": mode, "texts": {binascii.hexlify(da).decode(): ta, binascii.hexlify(db).decode(): tb},
+            "signed_core": {pa["vars"][SIG]: spec_core(pa), pb["vars"][SIG]: spec_core(pb)},
+            "revoked_digest": da if mode == "revA" else db if mode == "revB" else None}
+
+
+def run_history(chk, h, ref, doc_text):
+    """run the calls of one history in this process, compare each with the fresh-process reference; -> per-call results"""
+    calls = [dict(c, doc=doc_text) for c in h["calls"]]
+    uniq, keys = [], []
+    for c in calls:             # the same call twice in a history has one reference
+        k = (c["entry"], canon(c["play"]))
+        if k not in keys:
+            keys.append(k)
+            uniq.append({"entry": c["entry"], "play": c["play"], "doc": doc_text})
+    got_ref = ref.run(uniq)
+    refs = [got_ref[keys.index((c["entry"], canon(c["play"])))] for c in calls]
+    results = []
+    shown = {"op": "history", "doc": doc_text,
+             "calls": [{"what": c.get("what"), "entry": c["entry"], "level": c["level"], "play": to_json(c["play"])} for c in calls]}
+    for i, (c, want) in enumerate(zip(calls, refs)):
+        before = module_containers()
+        got = do_call(c, c["level"])
+        after = module_containers()
+        results.append(got)
+        where = "call %d of %d (%s %s, logging %s, after %s)" % (i + 1, len(calls), c["entry"], c.get("what", "?"), c["level"],
+                                                               "+".join(x.get("what", "?") for x in calls[:i]) or "nothing")
+        if got["verdict"] != want["verdict"]:
+            chk.failure("%s ended in %s, the same call as the first call of a fresh process ends in %s"
+                        % (where, got["verdict"][:40], want["verdict"][:40]), shown)
+        elif got["seen"] != want["seen"]:
+            chk.failure("%s: GPG was shown %s, in a fresh process it is shown %s" % (
+                where, [x[:12] for x in got["seen"]] or "nothing", [x[:12] for x in want["seen"]] or "nothing"), shown)
+        for k, n in after.items():
+            if n > before.get(k, 0):
+                chk.failure("%s: module-level container %s grew from %d to %d entries" % (where, k, before.get(k, 0), n), shown)
+    return results
+
+
+def run_histories(chk, ref, quick):
+    rng = chk.rng
+    n_hist = 75 if quick else 2500
+
+    def sign(p):
+        if p is None:
+            return None
+        ans, digest, raw = impl_excl(to_ruamel(p))
+        if digest is None:
+            return None
+        p = copy.deepcopy(p)
+        p["vars"][SIG] = fake_sign(digest)
+        return p, digest, raw.decode("utf-8")
+    cases, impl, lines, expect = [], [], [], []
+    for _ in range(n_hist):
+        h = gen_history(rng, sign)
+        if h is None:
+            continue
+        rdoc = h["rdoc"]
+        _, rd, rraw = impl_excl(to_ruamel(rdoc))
+        rdoc["vars"][SIG] = fake_sign(rd)
+        doc_text = dump_yaml([to_ruamel(rdoc)])
+        try:
+            rplain = from_ruamel(pv.yaml.load(doc_text)[0])
+        except Exception:
+            continue
+        texts = dict(h["texts"])
+        texts[binascii.hexlify(rd).decode()] = rraw.decode("utf-8")
+        results = run_history(chk, h, ref, doc_text)
+        chk.case(("history", tuple((c["what"], c["entry"], c["level"]) for c in h["calls"]), canon(h["calls"][0]["play"])), True)
+        chk.count("history:len%d" % len(h["calls"]))
+        chk.count("history:revocation-%s" % h["mode"])
+        enc_tab = lambda tab: ",".join(enc(x) + ":" + enc(y) for x, y in tab) if tab else "-"
+        for i, (c, got) in enumerate(zip(h["calls"], results)):
+            q = c["play"]
+            chk.count("history:%s/%s/%s" % (c["what"], c["entry"], got["verdict"].split(":")[0]))
+            chk.count("history:level-" + c["level"])
+            sg = q.get("vars", {}).get(SIG) if isinstance(q.get("vars"), dict) else None
+            accepted = got["verdict"] == "ok" or got["verdict"].startswith("valid:")
+            shown = {"op": "history", "doc": doc_text,
+                     "calls": [{"what": x["what"], "entry": x["entry"], "level": x["level"], "play": to_json(x["play"])} for x in h["calls"]]}
+            # the property itself, per call
+            if accepted and h["signed_core"].get(sg) != spec_core(q):
+                chk.failure("call %d (%s %s after %s): a play was accepted with a signature made for a play that differs outside the excluded elements"
+                            % (i + 1, c["entry"], c["what"], "+".join(x["what"] for x in h["calls"][:i]) or "nothing"), shown)
+            dq = impl_excl(to_ruamel(q))[1]
+            if c["entry"] == "verify" and got["verdict"] == "ok" and h["revoked_digest"] is not None and dq == h["revoked_digest"]:
+                chk.failure("call %d (verify %s, logging %s): a play whose digest is on the revocation list was accepted" % (i + 1, c["what"], c["level"]), shown)
+            # GPG must have been shown THIS play's digest whenever the play got as far as the signature check
+            if dq is not None and not signature_missing(q) and bad_sigs(q) == "-" and isinstance(sg, str) \
+                    and got["verdict"] not in ("crash",) and not (c["entry"] == "verify" and len(got["seen"]) == 0):
+                if binascii.hexlify(dq).decode() not in got["seen"]:
+                    chk.failure("call %d (%s %s after %s): GPG was never shown the digest of this play (shown: %s)"
+                                % (i + 1, c["entry"], c["what"], "+".join(x["what"] for x in h["calls"][:i]) or "nothing",
+                                   [x[:12] for x in got["seen"]] or "nothing"), shown)
+            # correspondence with the (stateless) model, call by call
+            if dq is not None:
+                texts.setdefault(binascii.hexlify(dq).decode(), None)
+            if c["entry"] == "verify":
+                tt = dict((k, v) for k, v in texts.items() if v is not None)
+                if dq is not None and binascii.hexlify(dq).decode() not in tt:
+                    tt[binascii.hexlify(dq).decode()] = impl_excl(to_ruamel(q))[2].decode("utf-8")
+                sigtab = []
+                for d in (q, rplain):
+                    v = d.get("vars") if isinstance(d, dict) else None
+                    s_ = v.get(SIG) if isinstance(v, dict) else None
+                    if isinstance(s_, str):
+                        try:
+                            b = base64.b64decode(s_)
+                        except Exception:
+                            continue
+                        hx_ = b[8:].decode("ascii", "replace")
+                        if b.startswith(b"FAKESIG:") and hx_ in tt:
+                            sigtab.append((s_, tt[hx_]))
+                hashtab = [(e["hash"], tt[e["hash"]]) for e in (rdoc.get("revoked_playbooks") or []) if e["hash"] in tt]
+                lines.append("verify\t%s\t%s\t%s\t%s\t%s" % (bad_sigs(q, rplain), enc_tab(sigtab), enc_tab(hashtab), wire(rplain), wire(q)))
+                expect.append(("verify", None))
+            else:
+                lines.append("vplay\t%s\t%s" % (bad_sigs(q), wire(q)))
+                expect.append(("vplay", sg))
+            impl.append(got["verdict"])
+            cases.append({"history": [x["what"] for x in h["calls"]], "call": i + 1, "entry": c["entry"], "level": c["level"]})
+    out = run_driver("C18", lines)
+    model = []
+    for (kind, sg), a in zip(expect, out):
+        if kind == "verify":
+            model.append(a)
+            continue
+        f = a.split("\t")
+        if f[0] != "ok":
+            model.append(a)
+            continue
+        hx_ = hashlib.sha256(dec(f[1]).encode("utf-8")).hexdigest()
+        valid = False
+        try:
+            valid = base64.b64decode(sg) == b"FAKESIG:" + hx_.encode("ascii")
+        except Exception:
+            pass
+        model.append(("valid:" if valid else "invalid:") + hx_)
+    chk.compare("histories: every call in one process = the stateless model", cases, impl, model)
 
 
 # ------------------------------------------------------------------ the check
@@ -1025,11 +1403,11 @@ class Pool(object):
                 chk.count("oracle:equal-core-pairs")
 
 
-def oracle_errors(chk, play, answer, via):
+def oracle_errors(chk, play, answer, via, case=None):
     """the error clauses, on the outcome of exclude (via='excl') or verify_play / verify"""
     want = spec_core(play)
     cls = answer.split("\t")[0]
-    case = {"op": via, "play": to_json(play)}
+    case = case or {"op": via, "play": to_json(play)}
     if want[0] == "must-verr" and cls != "verr":
         chk.failure("%s: %s, but the outcome is %r instead of a verification error" % (via, want[1], cls), case)
     if via != "excl" and signature_missing(play) and cls != "verr":
@@ -1050,10 +1428,6 @@ def load_corpus():
 def run(chk):
     rng = chk.rng
     quick = chk.tier == "quick"
-    n_vals = 3500 if quick else 60000
-    n_plays = 900 if quick else 10000
-    n_edits = 5 if quick else 8
-    n_verify = 500 if quick else 4000
     chk.rule = ("values and plays built from an alphabet of quotes, backslashes, control and zero-width characters, the "
                 "serializer's own delimiters ('ordereddict(', \"', '\", '), (') and look-alike scalars (1/'1'/True/'True'/None/'None'); "
                 "each play with several single edits (change, retype, insert, delete, reorder, wrap/unwrap/split/move, re-key, "
@@ -1063,6 +1437,9 @@ def run(chk):
                 "whose digest (hash_play, the one shown to GPG, the one compared with the revocation list) is compared with "
                 "SHA-256 computed in one piece over the model's serialisation, each with single-character edits at and around "
                 "multiples of 512/1024/4096/4097 of the serialised offset; "
+                "plus histories of 2-6 verify / verify_play / execute_verification calls in one process (genuine, tampered re-using an "
+                "earlier signature, the same again, other signatures, revoked before/after not revoked, logging levels varied per call), "
+                "each call compared with the same call as the first call of a freshly forked process; "
                 "non-trivial = distinct canonical play whose exclusion succeeds (a digest exists)")
     chk.assumptions = [
         "SHA-256 is treated as injective (the theorems are about the serialised text; the harness compares hash_play with hashlib on the model's text)",
@@ -1070,6 +1447,20 @@ def run(chk):
         "YAML loading (ruamel) is outside the model: plays enter as CommentedMap/CommentedSeq objects (built directly or loaded from rendered text)",
         "floats, timestamps and binaries are outside the quantifier",
     ]
+    ref = RefServer()          # forked before this process makes any call into the verifier
+    try:
+        _run(chk, ref)
+    finally:
+        ref.close()
+
+
+def _run(chk, ref):
+    rng = chk.rng
+    quick = chk.tier == "quick"
+    n_vals = 3000 if quick else 60000
+    n_plays = 800 if quick else 10000
+    n_edits = 5 if quick else 8
+    n_verify = 350 if quick else 4000
     chk.lean()
 
     corpus = load_corpus()
@@ -1174,7 +1565,8 @@ def run(chk):
         if a2 == "ok" and digest is not None and d2 != digest:
             chk.failure("verify_play checks a digest other than hash(serialize(exclude(play)))", {"op": "vplay", "play": to_json(p)})
         chk.count("vplay:" + a2)
-    out = run_driver("C18", lines_e + lines_v)
+    both = run_driver("C18", ["ev" + l[5:] for l in lines_v])      # one request per play: exclusion answer ; verify_play answer
+    out = [b.split(";")[0] for b in both] + [b.split(";")[1] if ";" in b else b for b in both]
     only = [p for _, p in plays]
     chk.compare("exclude+serialize_play", only, impl_e, out[:len(plays)], show=to_json)
     mv = []
@@ -1301,7 +1693,7 @@ def run(chk):
                 chk.failure("verify() accepted a play whose signature was made for a play that differs outside the excluded elements", case)
             if mode == "badsig":
                 chk.failure("verify() accepted a play although the revocation list's own signature is invalid", case)
-        oracle_errors(chk, q, a, "verify")
+        oracle_errors(chk, q, a, "verify", case)
     out = run_driver("C18", lines)
     chk.compare("verify (signature, revocation)", cases, impl, out)
     if cases:
@@ -1309,6 +1701,9 @@ def run(chk):
 
     # ---------------- stream 5: large plays (3 KiB - 64 KiB): the digest covers every byte
     run_large(chk, quick)
+
+    # ---------------- stream 6: histories of calls in one process vs. a fresh process per call
+    run_histories(chk, ref, quick)
 
     # ---------------- regression witnesses of the repaired defect 5a7421c (non-string list, non-mapping vars)
     for c in corpus:
@@ -1324,9 +1719,33 @@ def run(chk):
 
 # ------------------------------------------------------------------ replay
 
+class _Collect(object):
+    def __init__(self):
+        self.failures = []
+
+    def failure(self, desc, case, finding=None):
+        self.failures.append(desc)
+
+
 def replay(data):
     c = data["case"]
     op = c.get("op")
+    if op == "history":
+        ref = RefServer()          # before any call into the verifier in this process
+        try:
+            col = _Collect()
+            h = {"calls": [{"what": x.get("what"), "entry": x["entry"], "level": x["level"], "play": from_json(x["play"])} for x in c["calls"]]}
+            print("replaying a history of %d calls: %s" % (len(h["calls"]), ", ".join("%s %s [%s]" % (x["entry"], x["what"], x["level"]) for x in h["calls"])))
+            res = run_history(col, h, ref, c["doc"])
+            for x, r in zip(h["calls"], res):
+                print("  %s %s -> %s; GPG shown %s" % (x["entry"], x["what"], r["verdict"][:24], [d[:12] for d in r["seen"]] or "nothing"))
+            for f in col.failures:
+                print("  " + f)
+            bad = bool(col.failures)
+        finally:
+            ref.close()
+        print("property violated on this input" if bad else "property holds on this input")
+        return 1 if bad else 0
     print("replaying", json.dumps(c, ensure_ascii=False)[:2000])
     bad = False
     if op in ("ser-pair", "ser-collision"):
